@@ -54,16 +54,23 @@ package meeklite
 //@   ensures [C16:write_queues_exactly_the_bytes] err == nil ==> n == len(b) && sentcat(c.workerWrChan) == cat(old(sentcat(c.workerWrChan)), seq(b))
 //@   ensures [C16:failed_write_queues_nothing] err != nil ==> n == 0 && sentcat(c.workerWrChan) == old(sentcat(c.workerWrChan))
 
-// One HTTP round trip (net/http is outside the model: the contract is assumed).  What callers must
-// guarantee - and what is checked at the call site - is the body bound; what they may assume is the
-// ghost accounting: a body is counted once, when it was answered 200, and the response body is counted.
+// One HTTP round trip.  The network side is unconstrained (specs/http.spec); what is decided about the
+// code: every request carries this connection's session id, the body handed over is the one sent (bound
+// 65536 is the caller's obligation), the response body is a FRESH buffer of at most 65536 bytes (it is
+// handed to another goroutine and must not be reused), and the retry loop ends.  The ghost streams are
+// DEFINED here: a body counts once, when it was answered 200, followed by that response's body.
 //@ func (*meekConn).roundTrip(c, sndBuf) (res, err)
-//@   serves C16
-//@   nobody net/http (Transport.RoundTrip, Request, Header, io.ReadAll) is not modelled
-//@   requires c != nil
+//@   serves C16 C10
+//@   requires c != nil && c.args != nil && c.args.url != nil && c.transport != nil
 //@   requires [C16:no_body_exceeds_65536] len(sndBuf) <= 65536
 //@   modifies c.reqcat, c.respcat, blocked, now
-//@   ensures err == nil ==> c.reqcat == cat(old(c.reqcat), seq(sndBuf)) && c.respcat == cat(old(c.respcat), seq(res)) && len(res) <= 65536 && (res == nil || fresh(res))
+//@   loop 1 invariant 0 <= retries && retries <= 10 && unchanged(c.reqcat, c.respcat, c.sessionID)
+//@   loop 1 decreases 10 - retries
+//@   assert_at Header).Set#1 [C16:every_request_carries_the_session_id] arg1 == "X-Session-Id" && arg2 == c.sessionID && c.sessionID == old(c.sessionID)
+//@   ghostset c.reqcat := ite(err == nil, cat(old(c.reqcat), seq(sndBuf)), old(c.reqcat))
+//@   ghostset c.respcat := ite(err == nil, cat(old(c.respcat), seq(res)), old(c.respcat))
+//@   ensures [C16:response_buffer_is_private] err == nil ==> len(res) <= 65536 && (res == nil || fresh(res))
+//@   ensures err == nil ==> c.reqcat == cat(old(c.reqcat), seq(sndBuf)) && c.respcat == cat(old(c.respcat), seq(res))
 //@   ensures err != nil ==> c.reqcat == old(c.reqcat) && c.respcat == old(c.respcat)
 
 // The worker: one request at a time (it is a sequential loop); request bodies are, in order, exactly
@@ -71,13 +78,13 @@ package meeklite
 // next request -; every non-empty response body is handed to Read, in order.
 //@ func (*meekConn).ioWorker(c) ()
 //@   serves C16 C10
-//@   requires c != nil && c.workerWrChan != nil && c.workerRdChan != nil && c.workerCloseChan != nil && c.workerWrChan != c.workerRdChan
+//@   requires c != nil && c.workerWrChan != nil && c.workerRdChan != nil && c.workerCloseChan != nil && c.workerWrChan != c.workerRdChan && c.args != nil && c.args.url != nil && c.transport != nil
 //@   requires len(c.reqcat) == 0 && len(c.respcat) == 0 && len(recvcat(c.workerWrChan)) == 0 && len(sentcat(c.workerRdChan)) == 0
 //@   modifies c.reqcat, c.respcat, star(c.workerWrChan), star(c.workerRdChan), star(c.workerCloseChan), c.closeOnce.*, blocked, now
 //@   loop 1 invariant [C16:bodies_are_the_written_bytes_in_order] cat(c.reqcat, seq(leftBuf)) == recvcat(c.workerWrChan)
 //@   loop 1 invariant [C16:responses_reach_read_in_order] sentcat(c.workerRdChan) == c.respcat
-//@   loop 1 invariant leftBuf == nil || fresh(leftBuf)
-//@   loop 2 invariant cat(c.reqcat, seq(sndBuf)) == recvcat(c.workerWrChan) && wrSz == len(sndBuf) && sentcat(c.workerRdChan) == c.respcat && (sndBuf == nil || fresh(sndBuf))
+//@   loop 1 invariant (leftBuf == nil || fresh(leftBuf)) && unchanged(c.args, c.transport, c.args.url)
+//@   loop 2 invariant cat(c.reqcat, seq(sndBuf)) == recvcat(c.workerWrChan) && wrSz == len(sndBuf) && sentcat(c.workerRdChan) == c.respcat && (sndBuf == nil || fresh(sndBuf)) && unchanged(c.args, c.transport, c.args.url)
 //@   ensures [C16:worker_closes_both_queues] chanclosed(c.workerRdChan) && chanclosed(c.workerWrChan) && chanclosed(c.workerCloseChan)
 //@   ensures [C16:bodies_are_a_prefix_of_the_written_bytes] len(c.reqcat) <= len(recvcat(c.workerWrChan)) && sub(recvcat(c.workerWrChan), 0, len(c.reqcat)) == c.reqcat
 //@   ensures [C16:responses_reach_read_in_order] sentcat(c.workerRdChan) == c.respcat
